@@ -1015,7 +1015,7 @@ func (a *attrsBitmap) isSet(b uint8) bool {
 }
 
 func (s *UpdateDecoder[T]) decodePathAttrs(t T, b []byte, hasNLRI bool) error {
-	if len(b) < 1 {
+	if len(b) < 1 && !hasNLRI {
 		return nil
 	}
 	var me error
